@@ -13,11 +13,11 @@ QUICK_RUNS = 1500
 THOROUGH_SECONDS = 600
 RULE_TEXT = ("Two workflow instances (A with num_concurrent_runs 1..4, B with its own limit or none) on one runtime; 2-8 runs "
              "started on A and 0-4 on B at tape-chosen instants, step durations on a grid, some runs failing or cancelled so that "
-             "slots are released on every exit path. Non-trivial: more runs were started on an instance than its limit and at "
+             "slots are released on every exit path; a third of the programs fan out so that the run ends while sibling steps are in flight (one with an awaited clean-up shorter than the engine's grace period); in a third of the scenarios some runs of A are started from inside a step of another workflow's run. Non-trivial: more runs were started on an instance than its limit and at "
              "least one had to wait; distinct = abstract trace shape.")
 COMPONENTS = {"real": ["workflows.* engine, BasicRuntime._maybe_acquire_max_concurrent_runs"], "stub": ["llama_index_instrumentation"],
               "sim": ["loop, clock"]}
-ASSUMPTIONS = ["a run 'executes' from the moment its control loop starts until it exits (the limit is held for that whole span)"]
+ASSUMPTIONS = ["a run 'executes steps' from the moment its control loop starts until the loop has exited and its last step body has stopped"]
 EXPECTED_PROBES = ["address-reused-by-new-instance", "run-had-to-wait", "limit-reached", "slot-released-by-failure", "slot-released-by-cancel"]
 LEVEL_TEXT = "Seeded exploration of start instants/durations/exit paths; oracle counts live control loops per instance from the runner registry."
 LEVEL_NOTE = "Trusted: simulator loop, runner registry."
@@ -32,7 +32,18 @@ def gen(tape, cfg):
         {"name": "w0", "accepts": ["E0"], "workers": 1, "sync": False, "retry": None, "role": "step",
          "scripts": {"E0": [("work",), ("ret", "stop")]}, "returns": [], "stop": True},
     ]
+    if tape.chance(35, 100, "fanout?"):
+        # the run ends (fin returns the StopEvent) while sibling steps of the same run are still in flight; one of them cleans up for
+        # a while when cancelled (shorter than the engine's 0.5 s grace): the run executes steps until that is over
+        steps = [steps[0],
+                 {"name": "fin", "accepts": ["E0"], "workers": 1, "sync": False, "retry": None, "role": "step",
+                  "scripts": {"E0": [("work",), ("ret", "stop")]}, "returns": [], "stop": True},
+                 {"name": "idle", "accepts": ["E0"], "workers": 1, "sync": False, "retry": None, "role": "step",
+                  "scripts": {"E0": [("work",), ("work",), ("ret", None)]}, "returns": [], "stop": False},
+                 {"name": "careful", "accepts": ["E0"], "workers": 1, "sync": False, "retry": None, "role": "step", "slow_cancel": tape.choice([0.125, 0.25, 0.375], "slow-cancel.d"),
+                  "scripts": {"E0": [("work",), ("work",), ("ret", None)]}, "returns": [], "stop": False}]
     return {"steps": steps, "types": ["E0"], "timeout": None, "driver": "result", "disable_validation": False,
+            "fanout": len(steps) > 2, "launcher": tape.chance(35, 100, "launcher?"),
             "limit_a": tape.rng_int(1, 4, "limit.a"), "limit_b": tape.choice([None, 1, 2], "limit.b"),
             "n_a": tape.rng_int(2, 8, "n.a"), "n_b": tape.rng_int(0, 4, "n.b"),
             "generations": tape.choice([None, None, (4, 1), (3, 2), (1, 3), (2, 1)], "generations"), "n_gen": tape.rng_int(2, 5, "n.gen")}
@@ -116,12 +127,18 @@ async def scenario(world, spec):
         order.append(plan.pop(world.tape.draw(len(plan), "order")))
     handlers = {}
     fates = {}
+    from_step: list = []
     for inst, i in order:
         d = world.tape.choice([0, 0, 0, 1, 2], "start.gap")
         if d:
             await asyncio.sleep(d)
         rid = f"{inst}{i}"
         wf = wa if inst == "A" else wb
+        if spec.get("launcher") and inst == "A" and world.tape.chance(50, 100, "from-step?"):
+            # this run is started from inside a step of another workflow's run (a parent fanning out to a shared child instance)
+            from_step.append(rid)
+            fates[rid] = "ok"
+            continue
         # "abandon": the caller gives up on the run the asyncio way (asyncio.wait_for(handler, t) / task.cancel()): the run's task is
         # hard-cancelled wherever it is, possibly while still queued behind the limit
         fate = world.tape.choice(["ok", "ok", "ok", "fail", "cancel", "abandon"], "fate")
@@ -147,6 +164,25 @@ async def scenario(world, spec):
                     world.probe("run-hard-cancelled")
                     h._result_task.cancel()       # what cancelling a task that awaits the handler does
             asyncio.ensure_future(abandon())
+    if from_step:
+        from workflows import Context, Workflow, step
+        from workflows.events import StartEvent, StopEvent
+        world.probe("runs-started-from-inside-a-step")
+
+        class Launcher(Workflow):
+            @step
+            async def go(self, ctx: Context, ev: StartEvent) -> StopEvent:
+                hs = []
+                for rid in from_step:
+                    world.trace.log("run-requested", run=rid, inst="A", fate="ok", from_step=True)
+                    h = wa.run(start_event=EV.Start0(uid=world.uid()), run_id=rid)
+                    handlers[rid] = h
+                    hs.append(h)
+                await asyncio.gather(*[h._result_task for h in hs], return_exceptions=True)
+                return StopEvent(result="launched")
+        Launcher.__module__ = __name__
+        lh = Launcher(timeout=None, runtime=world.runtime).run(run_id="L0")
+        handlers["L0"] = lh
     world._spec = spec
     q = world.loop.quiesce()
     allt = asyncio.ensure_future(asyncio.gather(*[h._result_task for h in handlers.values()], return_exceptions=True))
@@ -176,7 +212,11 @@ def setup(world, spec):
 def check(world, spec, outcome) -> None:
     recs = world.trace.recs
     limit = {"A": spec["limit_a"], "B": spec["limit_b"]}
-    live: dict[str, set] = {"A": set(), "B": set()}
+    live: dict[str, set] = {"A": set(), "B": set(), "L": set()}
+    limit["L"] = None
+    loops: dict[str, set] = {"A": set(), "B": set(), "L": set(), "G": set(), "H": set()}
+    bodies: dict[str, int] = {}
+    hard_cancelled: set = set()
     if spec.get("generations"):
         limit["G"], limit["H"] = spec["generations"]
         live["G"], live["H"] = set(), set()
@@ -187,12 +227,15 @@ def check(world, spec, outcome) -> None:
     for seq, t, kind, f in recs:
         if kind == "run-requested":
             requested[f["run"]] = t
+        elif kind == "cancel-request" and f.get("hard") and f["run"] in started:
+            hard_cancelled.add(f["run"])
         elif kind == "cancel-request" and f["run"] not in started:
             # cancelled by the user before it got a slot: it need not execute any more
             requested.pop(f["run"], None)
         elif kind == "runner-start":
             inst = f["run"][0]
             live[inst].add(f["run"])
+            loops[inst].add(f["run"])
             started.add(f["run"])
             if t > requested.get(f["run"], t):
                 waited = True
@@ -201,10 +244,26 @@ def check(world, spec, outcome) -> None:
                 if len(live[inst]) == limit[inst]:
                     world.probe("limit-reached")
                 if len(live[inst]) > limit[inst]:
-                    world.violate("C30.over-limit", f"instance {inst}: {len(live[inst])} runs executing, num_concurrent_runs={limit[inst]}", seq, over=len(live[inst]) - limit[inst])
+                    # root-cause attribute: runs counted only because a step body of theirs is still executing after their control loop
+                    # exited, and how that loop exited
+                    stale = sorted(r for r in live[inst] if r not in loops[inst])
+                    how = "none" if not stale else ("hard-cancel" if all(r in hard_cancelled for r in stale) else "normal-exit")
+                    world.violate("C30.over-limit", f"instance {inst}: {len(live[inst])} runs executing steps ({sorted(live[inst])}; control loop already gone for {stale}), "
+                                  f"num_concurrent_runs={limit[inst]}", seq, over=min(len(live[inst]) - limit[inst], 3), body_outlived_loop=how)
+        elif kind == "enter" and f.get("run"):
+            bodies[f["run"]] = bodies.get(f["run"], 0) + 1
+        elif kind == "exit" and f.get("run"):
+            bodies[f["run"]] = bodies.get(f["run"], 0) - 1
+            # a run executes steps until its control loop has exited AND its last step body has stopped
+            if bodies[f["run"]] <= 0 and f["run"] not in loops.get(f["run"][0], set()):
+                live[f["run"][0]].discard(f["run"])
         elif kind == "runner-exit":
             inst = f["run"][0]
-            live[inst].discard(f["run"])
+            loops[inst].discard(f["run"])
+            if bodies.get(f["run"], 0) <= 0:
+                live[inst].discard(f["run"])
+            else:
+                world.probe("body-still-executing-after-loop-exit")
             if fates.get(f["run"]) == "fail":
                 world.probe("slot-released-by-failure")
             elif fates.get(f["run"]) in ("cancel", "abandon"):
